@@ -1,7 +1,10 @@
 #!/bin/bash
 # tools/seed_matrix.sh : every seeded regression against its own property's quick check (and the extra ones given in seeded/<id>/also)
 cd "$(dirname "$0")/.." || exit 3
+# SHARD=i NSHARDS=n SEED_WT=<own scratch worktree> run the i-th of n slices (several shards may run side by side)
+k=0
 for d in seeded/*/; do
+  k=$((k+1)); [ $((k % ${NSHARDS:-1})) -eq ${SHARD:-0} ] || continue
   id=$(basename "$d"); prop=${id%%-*}
   extra=""; [ -f "$d/also" ] && extra=$(cat "$d/also")
   for p in $prop $extra; do
